@@ -130,6 +130,79 @@ def part_env(args, tmp):
     return res
 
 
+def _report_env_task(keys):
+    return {k: os.environ.get(k) for k in keys}
+
+
+def part_envseq(args, tmp):
+    """The SAME env= mapping serves several spawns while the parent's environment changes in
+    between (a variable modified, one deleted, one added): every child sees the parent's
+    environment of ITS spawn time overlaid with the mapping, and the mapping is left alone."""
+    from loky.backend import get_context
+    from loky.process_executor import ProcessPoolExecutor
+    ctx = get_context("loky")
+    keys = ["VF_OVER", "VF_CHANGED", "VF_DELETED", "VF_ADDED"]
+    res = []
+    for how in ("process", "executor-respawn", "executor-resize"):
+        os.environ["VF_CHANGED"] = "before"
+        os.environ["VF_DELETED"] = "present"
+        os.environ.pop("VF_ADDED", None)
+        overlay = {"VF_OVER": "overlay"}
+        seen = []
+        parents = []
+
+        def step(i):
+            if i == 1:
+                os.environ["VF_CHANGED"] = "after"
+                os.environ.pop("VF_DELETED", None)
+                os.environ["VF_ADDED"] = "new"
+            parents.append({k: os.environ.get(k) for k in keys})
+        try:
+            if how == "process":
+                for i in range(2):
+                    step(i)
+                    path = os.path.join(tmp, f"envseq_{i}.json")
+                    p = ctx.Process(target=report_env, args=(path, keys), env=overlay)
+                    p.start()
+                    p.join(30)
+                    seen.append(json.load(open(path)) if os.path.exists(path) else None)
+            elif how == "executor-respawn":
+                e = ProcessPoolExecutor(1, timeout=0.3, env=overlay)
+                step(0)
+                seen.append(e.submit(_report_env_task, keys).result(30))
+                t0 = time.time()
+                while e._processes and time.time() - t0 < 15:
+                    time.sleep(0.05)
+                step(1)
+                seen.append(e.submit(_report_env_task, keys).result(30))
+                e.shutdown()
+            else:
+                from loky import get_reusable_executor
+                step(0)
+                e = get_reusable_executor(max_workers=1, env=overlay, timeout=30)
+                seen.append(e.submit(_report_env_task, keys).result(30))
+                first = set(e._processes)
+                step(1)
+                e = get_reusable_executor(max_workers=2, env=overlay, timeout=30)
+                fs = [e.submit(slow_env_task, keys, 0.4) for _ in range(2)]
+                rs = [f.result(30) for f in fs]
+                new = [r for r in rs if r["pid"] not in first]
+                seen.append({k: new[0][k] for k in keys} if new else None)
+                e.shutdown()
+            err = None
+        except BaseException as ex:      # noqa
+            err = repr(ex)
+        res.append(dict(how=how, seen=seen, parents=parents, overlay_after=dict(overlay), error=err))
+    return res
+
+
+def slow_env_task(keys, d):
+    time.sleep(d)
+    out = {k: os.environ.get(k) for k in keys}
+    out["pid"] = os.getpid()
+    return out
+
+
 def part_exit(args, tmp):
     from loky.backend import get_context
     from multiprocessing.connection import wait
@@ -231,7 +304,8 @@ def main():
     threading.Timer(float(args.get("watchdog", 240)), lambda: os._exit(97)).start()
     tmp = tempfile.mkdtemp(prefix="vfc18_")
     try:
-        res = dict(fds=part_fds, env=part_env, exit=part_exit, main=part_main)[part](args, tmp)
+        res = dict(fds=part_fds, env=part_env, exit=part_exit, main=part_main,
+                   envseq=part_envseq)[part](args, tmp)
     except BaseException:
         import traceback
         res = {"scenario_error": traceback.format_exc()[-2000:]}
